@@ -8,6 +8,7 @@ from .. import common
 from ..common import log
 from . import c09_floats
 from . import c09_ext
+from . import c09_data
 
 SLOT = 0x400
 NSLOT = 60
@@ -740,7 +741,9 @@ def run(args):
         known_hits.update(fl["known_hits"])
         # packed / word-granular segments, DN, CHARSET maps, character constants: vlib/props/c09_ext.py
         xprobes = {}
-        for part in (c09_ext.run_part(_sys.modules[__name__], args, bdir, wd, ok, probes),):
+        # DATA on word-organised targets, data statements behind CPU switches: vlib/props/c09_data.py
+        for part in (c09_ext.run_part(_sys.modules[__name__], args, bdir, wd, ok, probes),
+                     c09_data.run_part(_sys.modules[__name__], args, bdir, wd, ok, probes)):
             xprobes.update(part.get("probes", {}))
             spec_fail += part["spec_fail"]
             corr_fail += part["corr_fail"]
@@ -758,6 +761,9 @@ def run(args):
         "correspondence: real asl vs Model/Floats.lean on single float constants per target format (half, x87/68881 extended, IBM hex short/long, TMS320C3x short/single/extended)",
         "correspondence: real asl vs Model/DataExt.lean on generated statements under CHARSET/CODEPAGE maps, with character constants, DN, and on the word-granular "
         "CODE segments of AVR/KCPSM/KCPSM3 (granularity and TurnWords looked up in Generated/ListParams.lean, dumped from the current build by gen_listparams)",
+        "correspondence: real asl vs Model/DataWord.lean (fourpseudo.c DecodeDATA) on generated DATA statements of the TMS3201x, TMS3202x/5x, MIL-STD-1750, "
+        "PIC 17C4x/16C8x, 4004 and MELPS-4500 (CODE and DATA segments); word width / packing rule per target from the manual, ValIntType per target transcribed from the code generators",
+        "correspondence: real asl vs Model/DataSwitch.lean on sources that switch between the CPU families sharing motpseudo.c (the Turn argument of DecodeMotoPseudo per code generator is transcribed in c09_data.SW)",
         "C cast double->float assumed IEEE round-to-nearest-even (checked against the spec on every DC.S/DD case)",
         "decimal->double conversion of the assembler (float literals are printed with 17 significant digits)"])
     res.coverage.update(
@@ -766,12 +772,20 @@ def run(args):
              "(address, byte) with the Lean model and with the Lean specification; non-trivial = lays at least two cells or is rejected; distinct by request line; "
              "plus (float part) one evaluation = one float constant in one target format, emitted bits vs Model/Floats.lean and decoded value vs the format's nearest-even rounding, distinct by (format, double); "
              "plus (extension part, c09_ext.py) one evaluation = one slot of CHARSET statements + 1-2 data statements + sentinel on one of 11 target/segment configurations "
-             "(byte, 16-bit and 32-bit address units), compared cell by cell (byte offset, byte) with Model/DataExt.lean and Spec/DataExt.lean, same non-triviality rule",
+             "(byte, 16-bit and 32-bit address units), compared cell by cell (byte offset, byte) with Model/DataExt.lean and Spec/DataExt.lean, same non-triviality rule; "
+             "plus (DATA part, c09_data.py) one evaluation = one slot of optional CHARSET statements + 1-2 DATA statements of 1-6 arguments + sentinel on one of 12 target/segment "
+             "configurations, bytes vs Model/DataWord.lean and address units vs Spec/DataWord.lean, non-trivial = more than two units or rejected; "
+             "plus (CPU-switch part) one evaluation = one slot of 2-5 `CPU/ORG/statements` segments over 19 targets of both byte orders inside a source of up to 22 slots "
+             "(30 % of the batches: two source files in one asl invocation), compared with Model/DataSwitch.lean (static M16Turn threaded through the run) and, segment by segment, "
+             "with Spec/Data.lean in the byte order of the segment's target; distinct by (flag at slot start, request)",
         samples=samples, distribution=dict(sorted(dist.items())), generator=dict(sorted(stats.items())),
         probes=dict(probes, **xprobes), spec_failures_by_signature={str(k): v for k, v in known_hits.items()})
     res.assumptions = ["expression evaluation (C08) is outside: arguments are literals; integer values are wrapped to 64 bit before the model sees them",
                        "base stream: identity character map, double-quoted strings only; extension stream: CHARSET maps given by valid CHARSET statements with numeric arguments "
                        "(the CHARSET statement's own error paths and the table-from-file form are outside), strings and character constants over a printable alphabet",
+                       "DATA part: `?` is not an argument form of DATA; empty single-quoted constants and single-quoted constants of a length between floor(w/8) and ceil(w/8) "
+                       "characters of a w-bit word (w not a multiple of 8) are not generated (the manual's 'operand size' is not defined for them); word widths above 16 bit have no target here",
+                       "CPU-switch part: BYT/FCB/BYTE, ADR/FDB, DB/DW of the 68xx generators, FCC, DFS/RMB, ST6 BYTE/WORD/BLOCK; one pass per run (no forward references)",
                        "statements stay below the 1 KiB per line limit (SetMaxCodeLen is not modelled); DT reservation on 32-bit units is not generated (80 bits are not a whole number of units)",
                        "values in the gaps between the assembler's float limits (65504, 3.4e38, 1.7e308) and the formats' true limits are not generated",
                        "NaN inputs: only the quiet NaN that `1e400-1e400` evaluates to (no other NaN can be written in source text)",
@@ -793,7 +807,21 @@ def _fix_arg(a):
 def replay(args):
     d = json.load(open(args.replay))
     print(json.dumps({k: (v if len(str(v)) < 3000 else str(v)[:3000] + "...") for k, v in d.items()}, indent=1))
-    if "source" in d:
+    if "sources" in d:
+        # several source files assembled by ONE asl invocation (the history of the run matters)
+        bdir = common.repo_build("hooks")
+        with common.Workdir("c09r") as wd:
+            names = []
+            for i, src in enumerate(d["sources"]):
+                names.append("r%d.asm" % i)
+                open(os.path.join(wd, names[-1]), "w").write(src)
+            rc, so, se = common.run_tool(bdir, "asl", ["-q", "-L"] + names, wd)
+            print("asl rc =", rc, (so + se).decode(errors="replace")[-800:])
+            for n in names:
+                lst = os.path.join(wd, n[:-4] + ".lst")
+                if os.path.exists(lst):
+                    print("".join(l for l in open(lst, errors="replace").readlines()[3:] if " : " in l and l[:8].strip()[:1].isdigit())[-3000:])
+    elif "source" in d:
         bdir = common.repo_build("hooks")
         with common.Workdir("c09r") as wd:
             f = os.path.join(wd, "r.asm")
